@@ -177,6 +177,25 @@ FineStep(st, up, lat, loc, v, q, p) ==
 \* a negative initial channel store means "this proportion of the maximum storage"
 FineInit(cs) == IF Lt(cs.states[1], Zero) /\ ~IsZero(cs.params[1]) THEN <<Mul(Neg(cs.states[1]), FineMaxStorage(cs.params)), cs.states[2]>> ELSE cs.states
 
+RECURSIVE IPowN(_, _)
+IPowN(a, n) == IF n = 0 THEN One ELSE Mul(a, IPowN(a, n - 1))
+\* StorageParticulateTrapping for INTEGER lengthDischargePower: params DeltaT, reservoirCapacity, reservoirLength,
+\* subtractor, multiplier, lengthDischargeFactor, lengthDischargePower; inputs inflowLoad, inflow, outflow, storage;
+\* state storedMass; outputs trappedMass (a mass), outflowLoad.  Trapping efficiency (per cent, clamped to 0..100)
+\* = subtractor - multiplier * (capacity^2 / (factor * length * inflow^2)) ^ power; without water nothing leaves.
+TrapStep(sm, il, qin, qout, v, p) ==
+    LET dt == p[1]
+        incoming == Mul(il, dt)
+        index == Div(Mul(p[2], p[2]), Mul(Mul(p[6], p[3]), Mul(qin, qin)))
+        pc == IF Lt(Zero, qin) /\ Lt(Zero, p[3]) THEN MinR(R(100), MaxR(Zero, Sub(p[4], Mul(p[5], IPowN(index, p[7][1]))))) ELSE Zero
+        trapped == Div(Mul(incoming, pc), R(100))
+        sm1 == Sub(Add(sm, incoming), trapped)
+        wv == Add(Mul(qout, dt), v)
+    IN IF Lt(Zero, wv)
+       THEN LET rate == Mul(qout, Div(sm1, wv)) IN
+            [st |-> <<MaxR(Sub(sm1, Mul(rate, dt)), Zero)>>, outs |-> <<trapped, rate>>, flushed |-> Zero]
+       ELSE [st |-> <<sm1>>, outs |-> <<trapped, Zero>>, flushed |-> Zero]
+
 ConstituentStep(cs, t, st) ==
     LET p == cs.params  in == cs.inputs  m == cs.model IN
     CASE m = "LumpedConstituentRouting" -> LumpedStep(st[1], in[1][t], in[2][t], in[3][t], in[4][t], p[2], p[3])
@@ -188,6 +207,7 @@ ConstituentStep(cs, t, st) ==
             [st |-> <<Zero>>, outs |-> <<Add(in[1][t], IF t = 1 THEN cs.states[1] ELSE Zero), Zero>>, flushed |-> Zero]
       [] m = "InstreamParticulateNutrient" ->
             ParticulateStep(st, in[1][t], in[2][t], in[3][t], in[4][t], in[5][t], in[6][t], in[7][t], in[8][t], p[1], p[2], p[3])
+      [] m = "StorageParticulateTrapping" -> TrapStep(st[1], in[1][t], in[2][t], in[3][t], in[4][t], p)
       [] m = "InstreamFineSediment" ->
             IF IsZero(p[1])                      \* no bank-full flow configured: plain lumped transport of everything that enters, the channel store untouched
             THEN LET r == LumpedStep(st[2], in[1][t], Add(in[2][t], in[3][t]), in[5][t], in[4][t], Zero, p[13]) IN
@@ -207,7 +227,7 @@ ConstituentRun(cs) == ConstituentIter(cs, 1, InitSt(cs), [rows |-> <<>>, flushed
 \* per-timestep output tuples -> one series per output variable
 Transpose(rows) == [j \in 1..Len(rows[1]) |-> [t \in 1..Len(rows) |-> rows[t][j]]]
 ConstituentModels == {"LumpedConstituentRouting", "ConstituentDecay", "StorageDissolvedDecay", "StorageTrapAll", "InstreamCoarseSediment",
-                      "InstreamParticulateNutrient", "InstreamFineSediment"}
+                      "InstreamParticulateNutrient", "InstreamFineSediment", "StorageParticulateTrapping"}
 
 \* ---- generation models whose kernels are rational for INTEGER power factors (C16) ------------------------
 RECURSIVE IPow(_, _)
@@ -405,6 +425,11 @@ Cases(m) ==
                pc \in {R(0), Q(1, 2)}, dt \in {R(1), R(4)}, up \in {R(0), R(4)}, lat \in {R(0), R(2)}, v \in Vols, q \in {R(0), R(2)},
                sbe \in {R(0), R(4)}, ls \in {R(0), R(1)}, fpf \in {R(0), Q(1, 2), R(2)}, chf \in {Q(-1, 4), R(0), Q(1, 2), R(1)},
                s0 \in {R(0), R(6)}, s1 \in {R(8)}}
+      [] m = "StorageParticulateTrapping" ->  \* index = 100 / inflow^2: 4, 1, 1/4 (and no inflow); efficiencies inside (0,100) and clamped at both ends; no reservoir length
+            {[model |-> m, params |-> <<dt, R(100), ln, sb, mu, R(1), pw>>, inputs |-> <<a, qi, q, v>>, states |-> <<s0>>] :
+               dt \in {R(1), R(4)}, ln \in {R(100), R(0)}, sb \in {R(100), R(112)}, mu \in {R(10), R(50)}, pw \in {R(0), R(1), R(2)},
+               a \in {<<R(3), R(3)>>, <<R(0), R(3)>>, <<R(3), R(0)>>}, qi \in {<<R(0), R(5)>>, <<R(5), R(20)>>, <<R(20), R(0)>>, <<R(10), R(10)>>},
+               q \in {<<R(2), R(2)>>, <<R(0), R(2)>>, <<R(0), R(0)>>}, v \in {<<R(10), R(10)>>, <<R(0), R(10)>>, <<R(0), R(0)>>}, s0 \in {R(0), R(6)}}
       [] m = "InstreamFineSediment" ->
             LET PA(dt) == <<R(0), R(1), R(0), R(1), R(2), R(1), R(1), Q(1, 2), R(2), R(1), R(8640), R(4320), dt>>     \* no bank-full flow: lumped transport
                 \* bank-full 16, no floodplain area, room for 2000 kg, capacities: deposition above P14(q) t, remobilisation below 2 P14(q) t
@@ -508,10 +533,11 @@ GenNonNegative == c.model \in GeneratorModels => \A k \in 1..Len(O) : AllT(LAMBD
 \* (+ what the documented minimum-volume flush discards); nothing negative for non-negative inputs
 DT == CASE c.model = "LumpedConstituentRouting" -> c.params[3] [] c.model = "ConstituentDecay" -> c.params[3]
         [] c.model = "StorageDissolvedDecay" -> c.params[1] [] c.model = "InstreamCoarseSediment" -> c.params[1]
-        [] c.model = "InstreamParticulateNutrient" -> c.params[3] [] c.model = "InstreamFineSediment" -> c.params[13] [] OTHER -> One
+        [] c.model = "InstreamParticulateNutrient" -> c.params[3] [] c.model = "InstreamFineSediment" -> c.params[13]
+        [] c.model = "StorageParticulateTrapping" -> c.params[1] [] OTHER -> One
 MassIn == CASE c.model = "LumpedConstituentRouting" -> Mul(Add(Add(SumR(In[1]), SumR(In[2])), Mul(c.params[2], R(T(c)))), DT)
             [] c.model = "ConstituentDecay" -> Mul(Add(SumR(In[1]), SumR(In[2])), DT)
-            [] c.model = "StorageDissolvedDecay" -> Mul(SumR(In[1]), DT)
+            [] c.model \in {"StorageDissolvedDecay", "StorageParticulateTrapping"} -> Mul(SumR(In[1]), DT)
             [] c.model = "StorageTrapAll" -> SumR(In[1])
             [] c.model \in {"InstreamCoarseSediment", "InstreamFineSediment"} -> Mul(Add(Add(SumR(In[1]), SumR(In[2])), SumR(In[3])), DT)
             \* upstream + lateral + streambank erosion x nutrient concentration
@@ -520,6 +546,7 @@ MassOut == CASE c.model = "LumpedConstituentRouting" -> Mul(SumR(O[1]), DT)     
              [] c.model = "ConstituentDecay" -> Mul(Add(SumR(O[1]), SumR(O[2])), DT)               \* decayed + outflow
              [] c.model = "StorageDissolvedDecay" -> Mul(SumR(O[2]), DT)                           \* outflowMass
              [] c.model = "StorageTrapAll" -> Add(SumR(O[1]), SumR(O[2]))                          \* trapped + outflow
+             [] c.model = "StorageParticulateTrapping" -> Add(SumR(O[1]), Mul(SumR(O[2]), DT))     \* trapped (a mass) + outflow load
              [] c.model = "InstreamCoarseSediment" -> Mul(SumR(O[1]), DT)
              \* downstream + floodplain (net deposition on the bed is the change of the channel store, a state)
              [] c.model = "InstreamFineSediment" -> Mul(Add(SumR(O[1]), SumR(O[2])), DT)
